@@ -268,7 +268,7 @@ def run_ctor(ns, case):
     keys = []
     n = 0
 
-    def chk(name, t, shape, dtype=None, vals=None, flag=False, pred=None):
+    def chk(name, t, shape, dtype=None, vals=None, flag=False, pred=None, ulps=0):
         nonlocal n
         n += 1
         if not isinstance(t, ns.Tensor):
@@ -278,8 +278,14 @@ def run_ctor(ns, case):
         if dtype is not None and t.dtype != np.dtype(dtype):
             viol.append(V(f"ctor:{name}:dtype", f"dtype {t.dtype} != requested {np.dtype(dtype)}"))
         if vals is not None and tuple(t.shape) == tuple(np.shape(vals)):
-            if not np.array_equal(np.asarray(t.data, dtype=np.float64), np.asarray(vals, dtype=np.float64)):
-                viol.append(V(f"ctor:{name}:value", "values differ from the reference", got=np.asarray(t.data).tolist()[:8]))
+            g64_, v64_ = np.asarray(t.data, dtype=np.float64), np.asarray(vals, dtype=np.float64)
+            if ulps:
+                e_ = float(np.finfo(t.data.dtype).eps) if np.issubdtype(t.data.dtype, np.floating) else 0.0
+                ok_ = bool(np.all(np.abs(g64_ - v64_) <= ulps * e_ * max(1.0, float(np.max(np.abs(v64_))) if v64_.size else 1.0)))
+            else:
+                ok_ = np.array_equal(g64_, v64_)
+            if not ok_:
+                viol.append(V(f"ctor:{name}:value", "values differ from the reference", got=np.asarray(t.data).tolist()[:8], want=v64_.tolist()[:8]))
         if pred is not None and not pred(t.data):
             viol.append(V(f"ctor:{name}:range", "values outside the documented range"))
         if bool(t.requires_grad) != bool(flag):
@@ -302,8 +308,11 @@ def run_ctor(ns, case):
     src = ns.Tensor(rng.standard_normal(shp).astype([np.float32, np.float64][case["variant"] % 2]))
     chk("ones_like", sg.ones_like(src, **kw), shp, dt or src.dtype, np.ones(shp), flag)
     chk("zeros_like", sg.zeros_like(src, **kw), shp, dt or src.dtype, np.zeros(shp), flag)
-    for interval in [(5,), (2, 7), (1, 10, 3), (0, 1, 0.25), (5, 0, -1)]:
-        chk("arange", sg.arange(*interval, **kw), np.arange(*interval).shape, dt, np.arange(*interval), flag)
+    for interval in [(5,), (2, 7), (1, 10, 3), (0, 1, 0.25), (5, 0, -1), (0, 1, 0.3), (2, -1, -0.4), (0.5, 3.2, 0.7), (0, 10, 3.5)]:
+        t_ar = sg.arange(*interval, **kw)
+        ar_ = np.arange(*interval)
+        # (a float step accumulates rounding in the result dtype: a few ulps of the largest element)
+        chk("arange", t_ar, ar_.shape, dt, ar_, flag, ulps=0 if all(float(v_) == int(v_) for v_ in interval) else 8)
     d = int(rng.integers(1, 5))
     chk("eye", sg.eye(d, **kw), (d, d), dt, np.eye(d), flag)
     if rank >= 1:
